@@ -2,16 +2,19 @@
 (* C15: a stalled consumer cannot delay others or corrupt its own framing.                         *)
 (*                                                                                                 *)
 (* Every subscriber connection of lal (naza connection) owns a bounded queue `q` (a Go channel of  *)
-(* capacity cap) that a writer goroutine drains: it takes one element (`fl`, the write in flight)  *)
-(* and hands it to the socket, where it stays until the consumer has read it; what the consumer    *)
-(* has read is `wire`.  The fan-out loop of logic.Group (under Group.mutex) enqueues without ever   *)
-(* waiting: an element that finds the queue full is dropped.  Elements are PARTS of protocol units  *)
-(* [k, id, len]:                                                                                    *)
+(* capacity cap) that a writer goroutine drains: it takes one ELEMENT and hands its PARTS (one for  *)
+(* Write, one per buffer for Writev) to the socket one after the other; `fl` holds the parts of the *)
+(* element in flight that the consumer has not read yet, the first of them is blocked in the socket *)
+(* write; what the consumer has read is `wire`.  The fan-out loop of logic.Group (under             *)
+(* Group.mutex) enqueues without ever waiting: an element that finds the queue full is dropped.     *)
+(* Parts are records [k, uk, id, len, i, of]:                                                       *)
 (*   http (response header)   msg (RTMP message = chunk group)   tag (FLV tags)   flvh (FLV header) *)
-(*   ts (188-byte packet group)   empty (zero-length write)                                         *)
-(*   wsf (WebSocket frame header + payload in one element)                                          *)
+(*   ts (188-byte packet group)   rtp ('$'-framed interleaved RTP/RTCP packet)   empty (no bytes)   *)
+(*   wsf (WebSocket frame header + payload in one part)                                             *)
 (*   wsh (WebSocket frame header alone, len = announced payload length; its payload is the next     *)
-(*        element).  A unit enqueued as two parts can be cut by a slot that is full in between.     *)
+(*        part)   piece (i-th of `of` parts that only together are the unit uk/id/len).              *)
+(* A unit whose parts are separate ELEMENTS can be cut by a slot that is full in between; the parts  *)
+(* of one element are kept or dropped together.                                                     *)
 (*                                                                                                 *)
 (* Two granularities share the per-connection operators:                                            *)
 (*   Fine*  one action per enqueue / writer take / socket write: every interleaving of the fan-out  *)
@@ -20,37 +23,47 @@
 (*   G*     one action per call into lal followed by quiescence of the writer goroutines (Settle):  *)
 (*          deterministic, used to generate schedules and, in Trace_Backpressure, to predict what   *)
 (*          the real connections show after each call.                                              *)
+(* Consumers in Other subscribe to a second stream (another Group of the same ServerManager).       *)
 EXTENDS Integers, Sequences, FiniteSets, TLC, Json
 
 CONSTANTS Cons,       \* consumers with the small queue (capacity N) that may stall
-          Healthy,    \* consumers with the production queue size that always read
+          Healthy,    \* consumers of the same stream with the production queue size that always read
+          Other,      \* healthy consumers of ANOTHER stream
           N, HCap,
           Parts,      \* model checking only: elements per unit (1 = intended; 2 = header and payload apart)
+          ElemParts,  \* model checking only: parts per element (2 = two messages merged into one Writev)
           WsMode,     \* model checking only: the units are WebSocket frames
+          EnqAcct,    \* model checking only: liveness is accounted at enqueue (RTSP) instead of at the socket
+          HasDeadline, \* model checking only: every socket write has a deadline
+          Prime,      \* schedule generation: a stalled consumer's writer is kept busy with a null unit
           MaxPub, MaxRead, MaxStall, MaxSweep,  \* bounds (MaxSweep = 0: unbounded, not counted)
-          MaxLeave    \* how often the publisher may leave (and come back)
+          MaxLeave,   \* how often the publisher may leave (and come back)
+          MaxPubB     \* publishes on the other stream
 
-All == Cons \cup Healthy
+All == Cons \cup Healthy \cup Other
 
 VARIABLES con,     \* per consumer [open, closed, q, fl, wire, base, wr]
           cap,     \* per consumer queue capacity
-          ws,      \* the stream is WebSocket framed
+          pf,      \* protocol features [ws, enq, dl, two]: WebSocket framing, accounting at enqueue, write deadline,
+                   \* a second stream exists
           npub,    \* publishes so far
-          pend,    \* fine model: enqueues the running fan-out still has to do, << <<c, part>>, ... >>
-          cnt,     \* [read, stall, sweep, leave] bounds bookkeeping, live = a publisher is attached
+          pend,    \* fine model: enqueues the running fan-out still has to do, << <<c, element>>, ... >>
+          cnt,     \* [read, stall, sweep, leave, pubB] bounds bookkeeping, live = a publisher is attached
           act      \* last action (emission only)
 
-vars == <<con, cap, ws, npub, pend, cnt, act>>
+vars == <<con, cap, pf, npub, pend, cnt, act>>
 
 Min(a, b) == IF a < b THEN a ELSE b
-CntInit == [read |-> 0, stall |-> 0, sweep |-> 0, leave |-> 0, live |-> TRUE]
+CntInit == [read |-> 0, stall |-> 0, sweep |-> 0, leave |-> 0, pubB |-> 0, live |-> TRUE]
 ConsInit == [open |-> TRUE, closed |-> FALSE, q |-> <<>>, fl |-> <<>>, wire |-> <<>>, base |-> FALSE, wr |-> FALSE]
+RECURSIVE Flat(_)
+Flat(ss) == IF ss = <<>> THEN <<>> ELSE ss[1] \o Flat(Tail(ss))
 
 ---------------------------------------------------------------------------
 (* Framing grammar on sequences of parts.                                                          *)
-PayloadKinds == {"tag", "flvh", "ts", "empty"}
-SelfKinds(w) == IF w THEN {"http", "wsf"} ELSE {"http", "msg", "tag", "flvh", "ts", "empty"}
-\* A "piece" is the i-th of `of` consecutive elements that only together are the unit (uk, id, len).
+PayloadKinds == {"tag", "flvh", "ts", "rtp", "empty"}
+SelfKinds(w) == IF w THEN {"http", "wsf"} ELSE {"http", "msg", "tag", "flvh", "ts", "rtp", "empty"}
+\* A "piece" is the i-th of `of` consecutive parts that only together are the unit (uk, id, len).
 \* tail: the sequence may end inside a unit (a connection that was cut while the unit was under way).
 RECURSIVE WholeT(_, _, _)
 WholeT(s, w, tail) ==
@@ -70,141 +83,172 @@ WholeT(s, w, tail) ==
 Whole(s, w) == WholeT(s, w, FALSE)
 \* a connection that was cut may end inside a unit; one that is still served may not
 FramingOk(cs, w) == IF cs.closed THEN WholeT(cs.wire, w, TRUE)
-                    ELSE Whole(cs.wire \o cs.fl \o cs.q, w)
+                    ELSE Whole(cs.wire \o cs.fl \o Flat(cs.q), w)
 HasBytes(s) == \E i \in 1..Len(s) : s[i].k # "empty"
-RECURSIVE IsSubSeq(_, _)
-IsSubSeq(a, b) == IF a = <<>> THEN TRUE ELSE IF b = <<>> THEN FALSE
-                  ELSE IF a[1] = b[1] THEN IsSubSeq(Tail(a), Tail(b)) ELSE IsSubSeq(a, Tail(b))
+IsPrefix(a, b) == Len(a) <= Len(b) /\ SubSeq(b, 1, Len(a)) = a
 RECURSIVE IdsOf(_)
 IdsOf(s) == IF s = <<>> THEN <<>>     \* the units present completely (a unit in pieces counts with its last piece)
             ELSE (IF s[1].id # 0 /\ (s[1].k # "piece" \/ s[1].i = s[1].of) THEN <<s[1].id>> ELSE <<>>) \o IdsOf(Tail(s))
 
 ---------------------------------------------------------------------------
 (* Per-connection operators.                                                                        *)
-\* the writer goroutine runs until it is parked: idle (queue empty) or inside the socket write
+\* the writer goroutine runs until it is parked: idle (queue empty) or inside a socket write
 Settle(cs) ==
   IF cs.closed THEN cs
-  ELSE IF cs.open THEN [cs EXCEPT !.wire = @ \o cs.fl \o cs.q, !.fl = <<>>, !.q = <<>>,
-                                  !.wr = @ \/ HasBytes(cs.fl \o cs.q)]
-  ELSE IF cs.fl = <<>> /\ cs.q # <<>> THEN [cs EXCEPT !.fl = <<Head(cs.q)>>, !.q = Tail(cs.q)]
+  ELSE IF cs.open THEN [cs EXCEPT !.wire = @ \o cs.fl \o Flat(cs.q), !.fl = <<>>, !.q = <<>>,
+                                  !.wr = @ \/ (~pf.enq /\ HasBytes(cs.fl \o Flat(cs.q)))]
+  ELSE IF cs.fl = <<>> /\ cs.q # <<>> THEN [cs EXCEPT !.fl = Head(cs.q), !.q = Tail(cs.q)]
   ELSE cs
 
-\* A burst P of enqueues meets an idle writer and does not fit: which elements are accepted depends on
-\* when the writer goroutine wakes up.  For a consumer that is reading the outcome is visible at once
-\* (acc); for a stalled one it is hidden in the queue, such steps are not replayed.
-EnqRacy(cs, n, P) == ~cs.closed /\ ~cs.open /\ cs.fl = <<>> /\ Len(P) > n
-EnqObserved(cs, n, P) == ~cs.closed /\ cs.open /\ Len(P) > n
-LegalAcc(acc, P, n) == /\ IsSubSeq(acc, P) /\ Len(acc) >= Min(Len(P), n)
-                       /\ (P # <<>> => (acc # <<>> /\ acc[1] = P[1]))
-Enq(cs, n, P, acc) ==
+\* A burst E of enqueued elements meets an idle writer and does not fit: which elements are accepted depends
+\* on when the writer goroutine wakes up.  For a consumer that is reading the outcome is visible at once
+\* (acc = the parts it received); for a stalled one it is hidden in the queue, such steps are not replayed.
+EnqRacy(cs, n, E) == ~cs.closed /\ ~cs.open /\ cs.fl = <<>> /\ Len(E) > n
+EnqObserved(cs, n, E) == ~cs.closed /\ cs.open /\ Len(E) > n
+RECURSIVE AccElems(_, _)
+AccElems(acc, E) == IF E = <<>> THEN <<>>
+                    ELSE IF IsPrefix(E[1], acc)
+                           THEN <<E[1]>> \o AccElems(SubSeq(acc, Len(E[1]) + 1, Len(acc)), Tail(E))
+                    ELSE AccElems(acc, Tail(E))
+LegalAcc(acc, E, n) == LET A == AccElems(acc, E)
+                       IN /\ Flat(A) = acc /\ Len(A) >= Min(Len(E), n)
+                          /\ (E # <<>> => (A # <<>> /\ A[1] = E[1]))
+Accepted(cs, n, E, acc) ==
+  IF cs.closed THEN <<>>
+  ELSE IF cs.open THEN (IF Len(E) <= n THEN E ELSE AccElems(acc, E))
+  ELSE IF cs.fl = <<>> THEN E
+  ELSE SubSeq(E, 1, Min(Len(E), n - Len(cs.q)))
+\* counted: the elements are media handed over by the fan-out (they count for enqueue-side accounting)
+Enq(cs, n, E, acc, counted) ==
   IF cs.closed THEN cs
-  ELSE IF cs.open THEN Settle([cs EXCEPT !.q = IF Len(P) <= n THEN P ELSE acc])
-  ELSE IF cs.fl = <<>> THEN Settle([cs EXCEPT !.q = P])
-  ELSE [cs EXCEPT !.q = @ \o SubSeq(P, 1, Min(Len(P), n - Len(@)))]
+  ELSE LET A == Accepted(cs, n, E, acc)
+       IN Settle([cs EXCEPT !.q = @ \o A, !.wr = @ \/ (pf.enq /\ counted /\ HasBytes(Flat(A)))])
 
-ReadOne(cs) == Settle([cs EXCEPT !.wire = @ \o cs.fl, !.fl = <<>>, !.wr = @ \/ HasBytes(cs.fl)])
+\* the consumer reads exactly one socket write
+ReadOne(cs) == Settle([cs EXCEPT !.wire = Append(@, cs.fl[1]), !.fl = Tail(@),
+                                 !.wr = @ \/ (~pf.enq /\ Len(cs.fl) = 1 /\ HasBytes(cs.fl))])
 ResumeC(cs) == Settle([cs EXCEPT !.open = TRUE])
 CutC(cs)    == [cs EXCEPT !.closed = TRUE, !.fl = <<>>, !.q = <<>>]
 \* Group.disposeInactiveSessions: the first look takes the byte counter as base line; afterwards a
-\* session that has not completed a write since the previous look is disposed
+\* session whose counter has not moved since the previous look is disposed
 SweepC(cs) == IF cs.closed THEN cs
               ELSE IF ~cs.base THEN [cs EXCEPT !.base = TRUE, !.wr = FALSE]
               ELSE IF ~cs.wr THEN CutC(cs)
               ELSE [cs EXCEPT !.wr = FALSE]
+\* the null unit that keeps the writer of a stalled consumer busy (see Prime)
+Part(k, id, len) == [k |-> k, uk |-> k, id |-> id, len |-> len, i |-> 0, of |-> 0]
+NullElem == << Part(IF pf.ws THEN "wsf" ELSE "empty", 0, 0) >>
+NeedsPrime(cs) == ~cs.closed /\ ~cs.open /\ cs.fl = <<>>
+PrimeC(cs, elem) == Enq(cs, 1, <<elem>>, <<>>, FALSE)
 
 ---------------------------------------------------------------------------
 (* The units of publish number n in the model-checking configurations.                              *)
-Part(k, id, len) == [k |-> k, uk |-> k, id |-> id, len |-> len, i |-> 0, of |-> 0]
-Burst(n) == IF Parts = 1 THEN <<Part(IF WsMode THEN "wsf" ELSE "msg", n, n)>>
-            ELSE <<Part("wsh", 0, n), Part("tag", n, n)>>
+Burst(n) == IF Parts = 2 THEN << <<Part("wsh", 0, n)>>, <<Part("tag", n, n)>> >>
+            ELSE IF ElemParts = 2 THEN << <<Part("msg", n, n), Part("msg", 100 + n, n)>> >>
+            ELSE << <<Part(IF WsMode THEN "wsf" ELSE "msg", n, n)>> >>
 
 Init == /\ con = [c \in All |-> ConsInit]
-        /\ cap = [c \in All |-> IF c \in Healthy THEN HCap ELSE N]
-        /\ ws = WsMode /\ npub = 0 /\ pend = <<>>
+        /\ cap = [c \in All |-> IF c \in Cons THEN N ELSE HCap]
+        /\ pf = [ws |-> WsMode, enq |-> EnqAcct, dl |-> HasDeadline, two |-> Other # {}]
+        /\ npub = 0 /\ pend = <<>>
         /\ cnt = CntInit
         /\ act = [name |-> "init"]
 
 SweepOk == MaxSweep = 0 \/ cnt.sweep < MaxSweep
 SweepCnt == IF MaxSweep = 0 THEN cnt ELSE [cnt EXCEPT !.sweep = @ + 1]
+StreamA == All \ Other
 
 (* ---- fine-grained model ---- *)
 RECURSIVE SetToSeq(_)
 SetToSeq(S) == IF S = {} THEN <<>> ELSE LET x == CHOOSE y \in S : TRUE IN <<x>> \o SetToSeq(S \ {x})
 RECURSIVE Pairs(_, _)
-Pairs(cs, P) == IF cs = <<>> THEN <<>> ELSE [i \in 1..Len(P) |-> <<cs[1], P[i]>>] \o Pairs(Tail(cs), P)
+Pairs(cs, E) == IF cs = <<>> THEN <<>> ELSE [i \in 1..Len(E) |-> <<cs[1], E[i]>>] \o Pairs(Tail(cs), E)
 
 FinePublish == /\ pend = <<>> /\ npub < MaxPub /\ cnt.live
-               /\ pend' = Pairs(SetToSeq(All), Burst(npub + 1)) /\ npub' = npub + 1
-               /\ act' = [name |-> "Publish"] /\ UNCHANGED <<con, cap, ws, cnt>>
+               /\ pend' = Pairs(SetToSeq(StreamA), Burst(npub + 1)) /\ npub' = npub + 1
+               /\ act' = [name |-> "Publish"] /\ UNCHANGED <<con, cap, pf, cnt>>
 \* one enqueue: never waits for anybody
 FanoutWrite == /\ pend # <<>>
-               /\ LET c == pend[1][1] p == pend[1][2] cs == con[c]
+               /\ LET c == pend[1][1] e == pend[1][2] cs == con[c]
                   IN con' = [con EXCEPT ![c] = IF cs.closed \/ Len(cs.q) >= cap[c] THEN cs
-                                                ELSE [cs EXCEPT !.q = Append(@, p)]]
-               /\ pend' = Tail(pend) /\ act' = [name |-> "FanoutWrite"] /\ UNCHANGED <<cap, ws, npub, cnt>>
+                                                ELSE [cs EXCEPT !.q = Append(@, e), !.wr = @ \/ (pf.enq /\ HasBytes(e))]]
+               /\ pend' = Tail(pend) /\ act' = [name |-> "FanoutWrite"] /\ UNCHANGED <<cap, pf, npub, cnt>>
 WriterTake(c) == /\ ~con[c].closed /\ con[c].fl = <<>> /\ con[c].q # <<>>
-                 /\ con' = [con EXCEPT ![c].fl = <<Head(con[c].q)>>, ![c].q = Tail(con[c].q)]
-                 /\ act' = [name |-> "WriterTake", c |-> c] /\ UNCHANGED <<cap, ws, npub, pend, cnt>>
+                 /\ con' = [con EXCEPT ![c].fl = Head(con[c].q), ![c].q = Tail(con[c].q)]
+                 /\ act' = [name |-> "WriterTake", c |-> c] /\ UNCHANGED <<cap, pf, npub, pend, cnt>>
+WriteOne(cs) == [cs EXCEPT !.wire = Append(@, cs.fl[1]), !.fl = Tail(@),
+                           !.wr = @ \/ (~pf.enq /\ Len(cs.fl) = 1 /\ HasBytes(cs.fl))]
 SocketWrite(c) == /\ ~con[c].closed /\ con[c].fl # <<>> /\ con[c].open
-                  /\ con' = [con EXCEPT ![c].wire = @ \o con[c].fl, ![c].fl = <<>>, ![c].wr = @ \/ HasBytes(con[c].fl)]
-                  /\ act' = [name |-> "SocketWrite", c |-> c] /\ UNCHANGED <<cap, ws, npub, pend, cnt>>
+                  /\ con' = [con EXCEPT ![c] = WriteOne(@)]
+                  /\ act' = [name |-> "SocketWrite", c |-> c] /\ UNCHANGED <<cap, pf, npub, pend, cnt>>
 FineRead(c) == /\ ~con[c].closed /\ con[c].fl # <<>> /\ ~con[c].open /\ cnt.read < MaxRead
-               /\ con' = [con EXCEPT ![c].wire = @ \o con[c].fl, ![c].fl = <<>>, ![c].wr = @ \/ HasBytes(con[c].fl)]
+               /\ con' = [con EXCEPT ![c] = WriteOne(@)]
                /\ cnt' = [cnt EXCEPT !.read = @ + 1]
-               /\ act' = [name |-> "Read", c |-> c] /\ UNCHANGED <<cap, ws, npub, pend>>
-Stall(c) == /\ c \in Cons /\ ~con[c].closed /\ con[c].open /\ cnt.stall < MaxStall
-            /\ con' = [con EXCEPT ![c].open = FALSE] /\ cnt' = [cnt EXCEPT !.stall = @ + 1]
-            /\ act' = [name |-> "Stall", c |-> c] /\ UNCHANGED <<cap, ws, npub, pend>>
+               /\ act' = [name |-> "Read", c |-> c] /\ UNCHANGED <<cap, pf, npub, pend>>
+FineStall(c) == /\ c \in Cons /\ ~con[c].closed /\ con[c].open /\ cnt.stall < MaxStall
+                /\ con' = [con EXCEPT ![c].open = FALSE] /\ cnt' = [cnt EXCEPT !.stall = @ + 1]
+                /\ act' = [name |-> "Stall", c |-> c] /\ UNCHANGED <<cap, pf, npub, pend>>
 FineResume(c) == /\ ~con[c].closed /\ ~con[c].open
                  /\ con' = [con EXCEPT ![c].open = TRUE]
-                 /\ act' = [name |-> "Resume", c |-> c] /\ UNCHANGED <<cap, ws, npub, pend, cnt>>
+                 /\ act' = [name |-> "Resume", c |-> c] /\ UNCHANGED <<cap, pf, npub, pend, cnt>>
 \* the deadline of the write in flight passes
-DeadlineFire(c) == /\ ~con[c].closed /\ ~con[c].open /\ con[c].fl # <<>>
+DeadlineFire(c) == /\ pf.dl /\ ~con[c].closed /\ ~con[c].open /\ con[c].fl # <<>>
                    /\ con' = [con EXCEPT ![c] = CutC(@)]
-                   /\ act' = [name |-> "Fire", c |-> c] /\ UNCHANGED <<cap, ws, npub, pend, cnt>>
+                   /\ act' = [name |-> "Fire", c |-> c] /\ UNCHANGED <<cap, pf, npub, pend, cnt>>
 Sweep == /\ SweepOk /\ pend = <<>>      \* Group.Tick takes Group.mutex
-         /\ con' = [c \in All |-> SweepC(con[c])] /\ cnt' = SweepCnt
-         /\ act' = [name |-> "Sweep"] /\ UNCHANGED <<cap, ws, npub, pend>>
-
+         /\ con' = [c \in All |-> IF c \in Other /\ ~pf.two THEN con[c] ELSE SweepC(con[c])] /\ cnt' = SweepCnt
+         /\ act' = [name |-> "Sweep"] /\ UNCHANGED <<cap, pf, npub, pend>>
 \* DelRtmpPubSession / AddRtmpPubSession: critical sections under Group.mutex that, like the fan-out, never
 \* wait for a consumer (what they hand to the consumers, if anything, is observed in the trace)
 PubLeave == /\ cnt.live /\ cnt.leave < MaxLeave /\ pend = <<>>
             /\ cnt' = [cnt EXCEPT !.live = FALSE, !.leave = @ + 1]
-            /\ act' = [name |-> "PubLeave"] /\ UNCHANGED <<con, cap, ws, npub, pend>>
+            /\ act' = [name |-> "PubLeave"] /\ UNCHANGED <<con, cap, pf, npub, pend>>
 PubArrive == /\ ~cnt.live /\ pend = <<>>
              /\ cnt' = [cnt EXCEPT !.live = TRUE]
-             /\ act' = [name |-> "PubArrive"] /\ UNCHANGED <<con, cap, ws, npub, pend>>
+             /\ act' = [name |-> "PubArrive"] /\ UNCHANGED <<con, cap, pf, npub, pend>>
 
 FineNext == \/ FinePublish \/ FanoutWrite \/ Sweep \/ PubLeave \/ PubArrive
             \/ \E c \in All : WriterTake(c) \/ SocketWrite(c)
-            \/ \E c \in Cons : FineRead(c) \/ Stall(c) \/ FineResume(c) \/ DeadlineFire(c)
+            \/ \E c \in Cons : FineRead(c) \/ FineStall(c) \/ FineResume(c) \/ DeadlineFire(c)
 FineSpec == Init /\ [][FineNext]_vars
 \* fairness: the fan-out loop runs on (it never has to wait, NoBlocking), the timer ticks, deadlines pass;
 \* nothing is assumed about the consumers or the scheduling of the writer goroutines
 FineFair == FineSpec /\ WF_vars(FanoutWrite) /\ WF_vars(Sweep) /\ \A c \in Cons : WF_vars(DeadlineFire(c))
 
 \* whatever a consumer holds, was given or will be given is a concatenation of whole units
-WholeUnits == pend = <<>> => \A c \in All : FramingOk(con[c], ws)
+WholeUnits == pend = <<>> => \A c \in All : FramingOk(con[c], pf.ws)
 \* the fan-out loop can always take its next step, whatever the consumers do
 NoBlocking == pend # <<>> => ENABLED FanoutWrite
-QueueBound == \A c \in All : Len(con[c].q) <= cap[c] /\ Len(con[c].fl) <= 1
+QueueBound == \A c \in All : Len(con[c].q) <= cap[c]
 \* a consumer does not stay stalled for ever: its write deadline or the sweep cuts it
 EventuallyClosed == \A c \in Cons : <>[](con[c].closed \/ con[c].open)
 
 (* ---- call-level model: one action per call into lal, writers run to quiescence ---- *)
+\* before a call the driver may keep the writers of stalled idle consumers busy with a null unit, so that the
+\* burst of the call meets a full pipeline instead of racing with a writer that wakes up
+Primed(cn) == [c \in All |-> IF Prime /\ c \in Cons /\ NeedsPrime(cn[c]) THEN PrimeC(cn[c], NullElem) ELSE cn[c]]
 GPublish == /\ npub < MaxPub /\ cnt.live /\ \A h \in Healthy : ~con[h].closed   \* the healthy consumer shows the units
-            /\ LET P == Burst(npub + 1) IN
-               /\ \A c \in All : ~EnqRacy(con[c], cap[c], P)
-               /\ con' = [c \in All |-> Enq(con[c], cap[c], P, P)]
-            /\ npub' = npub + 1 /\ act' = [name |-> "Publish"] /\ UNCHANGED <<cap, ws, pend, cnt>>
+            /\ LET E == Burst(npub + 1) cn == Primed(con) IN
+               /\ \A c \in StreamA : ~EnqRacy(cn[c], cap[c], E)
+               /\ con' = [c \in All |-> IF c \in StreamA THEN Enq(cn[c], cap[c], E, Flat(E), TRUE) ELSE cn[c]]
+            /\ npub' = npub + 1 /\ act' = [name |-> "Publish"] /\ UNCHANGED <<cap, pf, pend, cnt>>
+\* a publish on the other stream, and a look at all groups (ServerManager.StatAllGroup)
+GPublishB == /\ Other # {} /\ cnt.pubB < MaxPubB
+             /\ LET E == << <<Part("msg", 200 + cnt.pubB, 1)>> >> IN
+                con' = [c \in All |-> IF c \in Other THEN Enq(con[c], cap[c], E, Flat(E), TRUE) ELSE con[c]]
+             /\ cnt' = [cnt EXCEPT !.pubB = @ + 1]
+             /\ act' = [name |-> "PublishB"] /\ UNCHANGED <<cap, pf, npub, pend>>
 GRead(c) == /\ ~con[c].closed /\ ~con[c].open /\ con[c].fl # <<>> /\ cnt.read < MaxRead
             /\ con' = [con EXCEPT ![c] = ReadOne(@)] /\ cnt' = [cnt EXCEPT !.read = @ + 1]
-            /\ act' = [name |-> "Read", c |-> c] /\ UNCHANGED <<cap, ws, npub, pend>>
+            /\ act' = [name |-> "Read", c |-> c] /\ UNCHANGED <<cap, pf, npub, pend>>
+GStall(c) == /\ c \in Cons /\ ~con[c].closed /\ con[c].open /\ cnt.stall < MaxStall
+             /\ con' = [con EXCEPT ![c] = [@ EXCEPT !.open = FALSE]] /\ cnt' = [cnt EXCEPT !.stall = @ + 1]
+             /\ act' = [name |-> "Stall", c |-> c] /\ UNCHANGED <<cap, pf, npub, pend>>
 GResume(c) == /\ ~con[c].closed /\ ~con[c].open
               /\ con' = [con EXCEPT ![c] = ResumeC(@)]
-              /\ act' = [name |-> "Resume", c |-> c] /\ UNCHANGED <<cap, ws, npub, pend, cnt>>
-GNext == \/ GPublish \/ Sweep \/ PubLeave \/ PubArrive
-         \/ \E c \in Cons : GRead(c) \/ Stall(c) \/ GResume(c) \/ DeadlineFire(c)
+              /\ act' = [name |-> "Resume", c |-> c] /\ UNCHANGED <<cap, pf, npub, pend, cnt>>
+GNext == \/ GPublish \/ GPublishB \/ Sweep \/ PubLeave \/ PubArrive
+         \/ \E c \in Cons : GRead(c) \/ GStall(c) \/ GResume(c) \/ DeadlineFire(c)
 GSpec == Init /\ [][GNext]_vars
 \* in the call-level model every state is quiescent
 Quiescent == \A c \in All : /\ (con[c].open => con[c].fl = <<>> /\ con[c].q = <<>>)
@@ -214,7 +258,7 @@ Quiescent == \A c \in All : /\ (con[c].open => con[c].fl = <<>> /\ con[c].q = <<
 Abs(cn, np, ct) == [npub |-> np, cnt |-> ct,
                     c |-> [c \in All |-> <<cn[c].open, cn[c].closed, Len(cn[c].q), Len(cn[c].fl), cn[c].base, cn[c].wr>>]]
 GView == Abs(con, npub, cnt)
-FineView == <<con, cap, ws, npub, pend, cnt>>
+FineView == <<con, cap, pf, npub, pend, cnt>>
 Emit == PrintT("@E@" \o ToJson([f |-> Abs(con, npub, cnt), a |-> act', t |-> Abs(con', npub', cnt'), l |-> TLCGet("level")]))
 EmitA == PrintT("@A@" \o ToJson([a |-> act, l |-> TLCGet("level")]))
 =============================================================================
